@@ -12,11 +12,11 @@ use serde_json::json;
 pub const SPEC: PropSpec = PropSpec {
 	id: "C19",
 	level: "exploration",
-	rule: "texts: random bytes as UTF-8, random JSON of arbitrary shape, JSON nested 10^2..10^5 deep, near-miss schemas (token-level mutations of valid documents: attribute replaced by a value of another JSON type, size negative / 1e30 / fractional / huge, duplicate keys, empty names, empty unions, unions in unions, primitives as names), flat documents with 10^3..3*10^4 named records chained by forward / backward references; node vectors through the public builder API: empty, dangling keys (also in nodes unreachable from the root, also usize::MAX), self-loops and longer cycles through unnamed nodes and through named nodes, shared nodes, every logical type on every node kind, arbitrary names (empty, dots only, quotes, NUL, 100 KB), 10^4..10^5 nodes. Calls: str::parse::<SchemaMut>, str::parse::<Schema>, freeze, canonical_form_rabin_fingerprint, serde_json::to_string(&SchemaMut); after a successful freeze: Debug formatting, serialization of unit / a generated value, deserialization of random bytes. Monitors: worker exit status (stack overflow = death by signal), panic hook, per-call CPU time. distinct by hash(text or graph)",
+	rule: "texts: random bytes as UTF-8, random JSON of arbitrary shape, JSON nested 10^2..10^5 deep, near-miss schemas (token-level mutations of valid documents: attribute replaced by a value of another JSON type, size negative / 1e30 / fractional / huge, duplicate keys, empty names, empty unions, unions in unions, primitives as names), flat documents with 10^3..3*10^4 named records chained by forward / backward references, levels of records each holding the next level in 2-3 fields (12..300 levels), one named type used at several places of a nest of records and defined at any one of them (all arrangements of references before / after / above / below the definition); node vectors through the public builder API: empty, dangling keys (also in nodes unreachable from the root, also usize::MAX), self-loops and longer cycles through unnamed nodes and through named nodes, shared nodes, every logical type on every node kind, arbitrary names (empty, dots only, quotes, NUL, 100 KB), 10^4..10^5 nodes. Calls: str::parse::<SchemaMut>, str::parse::<Schema>, freeze, canonical_form_rabin_fingerprint, serde_json::to_string(&SchemaMut); after a successful freeze: Debug formatting, serialization of unit / a generated value, deserialization of random bytes. Monitors: worker exit status (stack overflow = death by signal), panic hook, per-call CPU time. distinct by hash(text or graph)",
 	assumptions: &["8 MiB main-thread stack; documented panicking accessors (root(), Index) are not part of the statement and are not called", "CPU bound: > 5 s for one construction call on an input <= 1 MiB is reported"],
 	cases: (50_000_000, 4_000_000_000),
 	secs: (30, 900),
-	required: &["texts:random-json", "texts:near-miss", "texts:deep-nesting", "texts:long-chain", "texts:record-fan-out", "graphs:random", "graphs:dangling-key", "graphs:unnamed-cycle", "graphs:huge", "frozen_and_used"],
+	required: &["texts:random-json", "texts:near-miss", "texts:deep-nesting", "texts:long-chain", "texts:record-fan-out", "texts:forward-reference-arrangements", "graphs:random", "graphs:dangling-key", "graphs:unnamed-cycle", "graphs:huge", "frozen_and_used"],
 	run_case,
 	once: None,
 	panics_are_violations: true,
@@ -286,7 +286,54 @@ pub fn run_case(ctx: &mut Ctx, case_seed: u64) {
 			exercise_text(ctx, case_seed, &t);
 			ctx.count("texts:random-json");
 		}
-		3 | 4 | 5 => {
+		5 => {
+			// one named type used at several places of a nest of records (and through arrays / unions), defined at any one of
+			// them: every other use is a reference, before or after the definition, from an ancestor or a descendant of the
+			// node that holds the definition
+			let depth = 1 + rng.below(4);
+			let def_kind = rng.below(3);
+			let definition = match def_kind {
+				0 => "{\"type\":\"fixed\",\"name\":\"C\",\"size\":2}".to_owned(),
+				1 => "{\"type\":\"enum\",\"name\":\"C\",\"symbols\":[\"A\"]}".to_owned(),
+				_ => "{\"type\":\"record\",\"name\":\"C\",\"fields\":[{\"name\":\"z\",\"type\":\"int\"}]}".to_owned(),
+			};
+			// slots: (level, position) - each level has 1-3 uses of C around its nested record
+			let mut slots: Vec<(usize, usize)> = Vec::new();
+			let per_level: Vec<usize> = (0..=depth).map(|_| 1 + rng.below(3)).collect();
+			for (lvl, &n) in per_level.iter().enumerate() {
+				for k in 0..n {
+					slots.push((lvl, k));
+				}
+			}
+			let def_slot = *rng.pick(&slots);
+			let wrap = |t: String, rng: &mut Rng| -> String {
+				match rng.below(4) {
+					0 => format!("{{\"type\":\"array\",\"items\":{t}}}"),
+					1 => format!("[\"null\",{t}]"),
+					2 => format!("{{\"type\":\"map\",\"values\":{t}}}"),
+					_ => t,
+				}
+			};
+			fn level(lvl: usize, depth: usize, per_level: &[usize], def_slot: (usize, usize), definition: &str, wrap: &dyn Fn(String, &mut Rng) -> String, rng: &mut Rng) -> String {
+				let n = per_level[lvl];
+				let nested_at = rng.below(n + 1);
+				let mut fields: Vec<String> = Vec::new();
+				for k in 0..=n {
+					if k == nested_at && lvl < depth {
+						fields.push(format!("{{\"name\":\"nest\",\"type\":{}}}", level(lvl + 1, depth, per_level, def_slot, definition, wrap, rng)));
+					}
+					if k < n {
+						let t = if (lvl, k) == def_slot { definition.to_owned() } else { "\"C\"".to_owned() };
+						fields.push(format!("{{\"name\":\"u{k}\",\"type\":{}}}", wrap(t, rng)));
+					}
+				}
+				format!("{{\"type\":\"record\",\"name\":\"L{lvl}\",\"fields\":[{}]}}", fields.join(","))
+			}
+			let t = level(0, depth, &per_level, def_slot, &definition, &wrap, &mut rng);
+			exercise_text(ctx, case_seed, &t);
+			ctx.count("texts:forward-reference-arrangements");
+		}
+		3 | 4 => {
 			let mut cfg = SchemaGenCfg::default();
 			cfg.max_nodes = *rng.pick(&[3, 10, 24]);
 			let rs = gen_schema(&mut rng, &cfg);
